@@ -215,9 +215,17 @@ static int g_hook_k_r_valid; static uint32_t g_hook_k, g_hook_r;
 /* ML decoding events of the current call (layer-B binding of LdpcMl; diagnosis only) */
 #define MAXML 256
 static int g_ml_perm[MAXML], g_ml_nperm, g_ml_piv[MAXML], g_ml_npiv, g_ml_simpl[3], g_ml_have_simpl, g_ml_fail;
+static int g_pchkev;   /* log every PRNG / construction event of LDPC matrix constructions (C05 draw-level binding) */
 static void verif_hook(const char *name, const void *obj, long a, long b, long c, long d)
 {
 	int save = g_in_lib; g_in_lib = 0;
+	if (g_pchkev) {
+		if (!strcmp(name, "rand")) { jb_printf("{\"e\":\"pr\",\"mv\":%ld,\"s\":%ld}\n", a, b); }
+		else if (!strcmp(name, "srand")) { jb_printf("{\"e\":\"ps\",\"hi\":%ld,\"lo\":%ld}\n", (long)(((unsigned long)a) >> 31), (long)(((unsigned long)a) & 0x7FFFFFFF)); }
+		else if (!strcmp(name, "pchk_draw")) { jb_printf("{\"e\":\"pd\",\"i\":%ld,\"b\":%ld,\"p\":%ld}\n", a, b, c); }
+		else if (!strcmp(name, "pchk_insert")) { jb_printf("{\"e\":\"pi\",\"r\":%ld,\"c\":%ld,\"p\":%ld}\n", a, b, c); }
+		if (g_jn > (1 << 16)) jb_flush();
+	}
 	if (!strcmp(name, "pchk_done")) {
 		/* a = nb_rows (r), b = nb_cols (n) */
 		free_H(g_hookH, g_hookHn, g_hooknH);
@@ -434,6 +442,7 @@ static void cmd_params(int sid, uint32_t k, uint32_t r, uint32_t len, uint32_t m
 	dses_t *s = &S[sid];
 	s->k = k; s->r = r; s->n = k + r; s->len = len; s->m = m; s->N1 = N1; s->seed = seed; s->payload = payload; s->align = align;
 	g_hook_have = 0;
+	if (g_pchkev && s->codec == 3) { jb_printf("{\"e\":\"pb\",\"k\":%u,\"r\":%u,\"N1\":%u}\n", k, r, N1); jb_flush(); }
 	uint64_t seed_before = of_seed;
 	of_status_t st = set_params_raw(s, sid, k, r, len, m, N1, seed);
 	jb_printf("{\"e\":\"SetParams\",\"x\":%ld,\"s\":%d,\"codec\":%d,\"role\":\"%s\",\"k\":%d,\"r\":%d,\"len\":%d,\"m\":%u,\"N1\":%u,\"seed\":%d,\"payload\":\"%s\",\"raw\":%d",
@@ -797,6 +806,7 @@ int main(int argc, char **argv)
 	g_progress[0] = 0;  /* index of the line at which the next child starts */
 	g_progress[1] = 0;  /* execution counter */
 	int fork_each = getenv("OF_DRIVER_FORK_EACH") != NULL;
+	g_pchkev = getenv("OF_DRIVER_PCHKEVENTS") != NULL;
 	g_itproj = getenv("OF_DRIVER_ITPROJ") ? atoi(getenv("OF_DRIVER_ITPROJ")) : 0;   /* max n for which the IT projection is logged */
 	int timeout_s = getenv("OF_DRIVER_EXEC_TIMEOUT") ? atoi(getenv("OF_DRIVER_EXEC_TIMEOUT")) : 300;
 	while ((size_t)g_progress[0] < nl) {
